@@ -6,6 +6,7 @@ import (
 	"go/token"
 	"go/types"
 	"os"
+	"sort"
 	"strings"
 )
 
@@ -675,6 +676,17 @@ func (e *Engine) execTypeSwitch(s *ast.TypeSwitchStmt, st *State, label string) 
 				continue
 			}
 			taken = true
+			// obligations of the loops inside the selected arm are named by their position within the arm, so that
+			// adding or removing a loop elsewhere in the function does not rename them
+			base := -1
+			for l, o := range e.loopOrd {
+				if l.Pos() >= cc.Pos() && l.End() <= cc.End() && (base < 0 || o < base) {
+					base = o
+				}
+			}
+			if base > 0 {
+				e.armBase = base
+			}
 		}
 		var conds []string
 		for _, tx := range cc.List {
@@ -885,6 +897,10 @@ func (e *Engine) callMods(c *ast.CallExpr, m *modset) {
 		}
 	}
 	fn := e.staticCallee(c)
+	if fn != nil && e.c != nil && e.c.Opts["ghostvisit"] != "" && e.c.Opts["ghostvisit"] == fn.Name() {
+		m.heaps[ghVisited] = true
+		m.heaps[ghCount] = true
+	}
 	if fn != nil && e.c != nil {
 		for _, n := range strings.Fields(e.c.Opts["track"]) {
 			if n == fn.Name() {
@@ -1118,7 +1134,7 @@ func (e *Engine) checkInvariants(st *State, ls *LoopSpec, ord int, kind string, 
 		v := e.ev(inv.Expr, st)
 		e.spec--
 		saved := e.prefix
-		e.prefix = saved + fmt.Sprintf("%s.%d.", kind, ord)
+		e.prefix = saved + fmt.Sprintf("%s.%d.", kind, e.lbl(ord))
 		if kind == "inv-pres" && len(ls.caseTerms) > 0 && v.T != "true" {
 			// proof by cases (`cases` directive): one obligation per combination; together they are exhaustive
 			combos := []string{"true"}
@@ -1142,10 +1158,10 @@ func (e *Engine) checkInvariants(st *State, ls *LoopSpec, ord int, kind string, 
 			for ci, cnd := range combos {
 				s2 := st.clone()
 				s2.pc = and(st.pc, cnd)
-				e.obligeNamed(s2, fmt.Sprintf("%s.%d#%d@case%s", kind, ord, i, labels[ci]), kind, v.T, p, fmt.Sprintf("loop %d invariant %q (case %s)", ord, inv.Text, labels[ci]), inv.Prop)
+				e.obligeNamed(s2, fmt.Sprintf("%s.%d#%d@case%s", kind, e.lbl(ord), i, labels[ci]), kind, v.T, p, fmt.Sprintf("loop %d invariant %q (case %s)", ord, inv.Text, labels[ci]), inv.Prop)
 			}
 		} else {
-			e.obligeNamed(st, fmt.Sprintf("%s.%d#%d", kind, ord, i), kind, v.T, p, fmt.Sprintf("loop %d invariant %q", ord, inv.Text), inv.Prop)
+			e.obligeNamed(st, fmt.Sprintf("%s.%d#%d", kind, e.lbl(ord), i), kind, v.T, p, fmt.Sprintf("loop %d invariant %q", ord, inv.Text), inv.Prop)
 		}
 		e.prefix = saved
 	}
@@ -1233,6 +1249,7 @@ func (e *Engine) execFor(s *ast.ForStmt, st *State, label string) *State {
 	defer func() { e.loopEntry = e.loopEntry[:len(e.loopEntry)-1] }()
 	e.checkInvariants(st, ls, ord, "inv-init", s.Pos())
 	m := e.modifiedIn(s.Body, s.Post, s.Cond)
+	e.loopFrame(st, m, ord, "inv-init", s.Pos(), false)
 	var extra []string
 	if ls != nil {
 		extra = ls.Modifies
@@ -1247,6 +1264,8 @@ func (e *Engine) execFor(s *ast.ForStmt, st *State, label string) *State {
 	head := st.clone()
 	e.havocLoop(head, m, extra)
 	e.assumeInvariants(head, ls)
+	e.loopFrame(head, m, ord, "", s.Pos(), true)
+	e.ghostMonotone(st, head, m)
 	if ls != nil {
 		e.hints(head, ls.Hints)
 	}
@@ -1299,13 +1318,14 @@ func (e *Engine) execFor(s *ast.ForStmt, st *State, label string) *State {
 			_ = end // hints are seeded at the loop head only
 		}
 		e.checkInvariants(end, ls, ord, "inv-pres", s.Pos())
+		e.loopFrame(end, m, ord, "inv-pres", s.Pos(), false)
 		if v0 != "" {
 			e.spec++
 			v1 := e.ev(ls.Decreases.Expr, end).T
 			e.spec--
-			e.obligeNamed(end, fmt.Sprintf("dec.%d", ord), "dec", and(e.le(e.izero(), v0), e.lt(v1, v0)), s.Pos(), "loop variant decreases and is bounded below", ls.Decreases.Prop)
+			e.obligeNamed(end, fmt.Sprintf("dec.%d", e.lbl(ord)), "dec", and(e.le(e.izero(), v0), e.lt(v1, v0)), s.Pos(), "loop variant decreases and is bounded below", ls.Decreases.Prop)
 		}
-		e.canary(end, fmt.Sprintf("loop%d-end", ord), s.Pos())
+		e.canary(end, fmt.Sprintf("loop%d-end", e.lbl(ord)), s.Pos())
 	}
 	outs := append([]*State{exit}, lf.breaks...)
 	return e.merge(outs)
@@ -1385,6 +1405,7 @@ func (e *Engine) execRange(s *ast.RangeStmt, st *State, label string) *State {
 	defer func() { e.loopEntry = e.loopEntry[:len(e.loopEntry)-1] }()
 	e.checkInvariants(st, ls, ord, "inv-init", s.Pos())
 	m := e.modifiedIn(s.Body)
+	e.loopFrame(st, m, ord, "inv-init", s.Pos(), false)
 	var extra []string
 	if ls != nil {
 		extra = ls.Modifies
@@ -1401,6 +1422,8 @@ func (e *Engine) execRange(s *ast.RangeStmt, st *State, label string) *State {
 		}
 	}
 	e.assumeInvariants(head, ls)
+	e.loopFrame(head, m, ord, "", s.Pos(), true)
+	e.ghostMonotone(st, head, m)
 	cond := e.lt(hk, length)
 	body := head.clone()
 	body.pc = and(head.pc, cond)
@@ -1502,8 +1525,62 @@ func (e *Engine) execRange(s *ast.RangeStmt, st *State, label string) *State {
 			_ = end // hints are seeded at the loop head only
 		}
 		e.checkInvariants(end, ls, ord, "inv-pres", s.Pos())
-		e.canary(end, fmt.Sprintf("loop%d-end", ord), s.Pos())
+		e.loopFrame(end, m, ord, "inv-pres", s.Pos(), false)
+		e.canary(end, fmt.Sprintf("loop%d-end", e.lbl(ord)), s.Pos())
 	}
 	outs := append([]*State{exit}, lf.breaks...)
 	return e.merge(outs)
+}
+
+// loopFrame: in a unit with an explicit modifies clause and `opt loopframe yes`, every loop carries the implicit
+// invariant "each heap the loop writes that the contract does not list is unchanged on the references that existed at
+// function entry" (stores go to memory allocated by the function itself). It is checked on entry and after the body
+// like a written invariant and assumed at the loop head; without it the havoc at the loop head would forget the
+// caller-visible memory and the frame obligations at the function's exit could not be discharged.
+func (e *Engine) loopFrame(st *State, m *modset, ord int, kind string, p token.Pos, assume bool) {
+	if st == nil || e.c == nil || !e.c.ModSet || e.c.Opts["loopframe"] == "" || e.spec > 0 || len(e.inlineStack) > 0 || e.entry == nil {
+		return
+	}
+	allowed := map[string]bool{}
+	for _, h := range e.c.Modifies {
+		if h == "all" {
+			return
+		}
+		allowed[h] = true
+	}
+	if m.all {
+		return
+	}
+	var hs []string
+	for h := range m.heaps {
+		if !allowed[h] && !strings.HasPrefix(h, "!epoch:") {
+			hs = append(hs, h)
+		}
+	}
+	sort.Strings(hs)
+	for _, h := range hs {
+		srt := e.heapSort(h)
+		if srt == "" {
+			continue
+		}
+		cur := e.heapGet(st, h, srt)
+		h0 := e.heapGet(e.entry, h, srt)
+		if cur == h0 {
+			continue
+		}
+		goal := fmt.Sprintf("(forall ((r!f %s)) (! (=> %s (= (select %s r!f) (select %s r!f))) :pattern ((select %s r!f))))", e.isort(), e.le("r!f", e.entry.top), cur, h0, cur)
+		if assume {
+			e.assume(st.pc, goal)
+			continue
+		}
+		e.obligeNamed(st, fmt.Sprintf("%s.%d/frame:%s", kind, e.lbl(ord), h), kind, goal, p, "loop "+fmt.Sprint(ord)+" leaves heap "+h+" unchanged on the references that existed at function entry (implicit frame invariant)", "")
+	}
+}
+
+// lbl: the number a loop carries in obligation names (its ordinal, relative to the statically selected switch arm).
+func (e *Engine) lbl(ord int) int {
+	if ord >= e.armBase {
+		return ord - e.armBase
+	}
+	return ord
 }
